@@ -9,7 +9,7 @@ NOTE_COMMON = ("Trusted base: Lean 4.33 kernel; axioms propext/Classical.choice/
                "CPython/numpy/scipy as execution substrate. ")
 
 # properties whose check is claimed; each harness/cXX.py carries its own MANIFEST literal
-CLAIMED = ["C01", "C02", "C03", "C04", "C05", "C06", "C07", "C08", "C09", "C10", "C11", "C12", "C14", "C15", "C16", "C17", "C18", "C19", "C20"]
+CLAIMED = ["C01", "C02", "C03", "C04", "C05", "C06", "C07", "C08", "C09", "C10", "C11", "C12", "C13", "C14", "C15", "C16", "C17", "C18", "C19", "C20"]
 
 NOT_CLAIMED_REASON = {}
 
